@@ -1475,4 +1475,49 @@ Proof.
   exfalso. apply pubs_in_F in P. now destruct Sd.
 Qed.
 
+(* a settled task stays settled; its entry and its execution count never change again *)
+Lemma settled_stable s s' :
+  inv s -> step_kind s s' ->
+  forall d, settled c s d -> settled c s' d /\ env s' d = env s d.
+Proof.
+  intros I K d [S1 S2]. destruct K.
+  - split; [|congruence]. split; [congruence|].
+    intros Hin. apply S2. eapply Permutation_in; [apply Permutation_sym|]; eauto.
+  - subst s'. split; auto. split; [congruence|].
+    intros Hin. apply S2. eapply Permutation_in; [apply Permutation_sym|]; eauto.
+  - destruct (decide_modes s t todo acc nb r e' H H0) as [HL M]. subst s'.
+    assert (dt : d <> t) by (intros ->; apply S1; rewrite HL, in_app_iff; simpl; auto).
+    split; [|simpl; eapply decide_other; eauto].
+    rewrite HL in S1.
+    destruct M as [(_ & E1 & E2 & _)|[(_ & E1 & E2 & _)|[(_ & E1 & E2 & _)|(_ & E1 & E2 & _)]]];
+      split; rewrite ?E1, ?E2, ?HL; simpl; auto;
+      rewrite ?in_app_iff in *; simpl in *; intuition.
+  - subst s'. split; [split; congruence | reflexivity].
+  - split.
+    + split; [congruence|]. intros Hin. apply S2.
+      eapply Permutation_in; [apply Permutation_sym; eauto | right; auto].
+    + subst s'. simpl. apply publish_other. intros ->. apply S2.
+      eapply Permutation_in; [apply Permutation_sym; eauto | left; auto].
+Qed.
+
+Lemma settled_started_stable s s' :
+  inv s -> step_kind s s' -> forall d, settled c s d -> started s' d = started s d.
+Proof.
+  intros I K d [S1 S2]. destruct K.
+  - now rewrite H0.
+  - subst s'; reflexivity.
+  - subst s'; reflexivity.
+  - subst s'. simpl. apply upd_other. intros ->. apply S2, In_F. right; right. exists w.
+    split; auto. rewrite H0; simpl; auto.
+  - subst s'; reflexivity.
+Qed.
+
+(* do() of a task begins at most once per run *)
+Lemma started_cases s t : inv s -> started s t = st0 t \/ started s t = S (st0 t).
+Proof.
+  intros [I _]. destruct (inv_entry _ I t) as [[P _]|[(_ & St & _)|[_ [St _]]]]; auto.
+  destruct P as (w & a & b & k & Hw & E). pose proof (inv_wp _ I w Hw) as Ok.
+  rewrite E in Ok. simpl in Ok. tauto.
+Qed.
+
 End Invariants.
